@@ -87,7 +87,35 @@ MODULES = {
         {"bound_scaled_power": {"max": "T", "min": "T"},
          "bound_scaled_multiplicative": {"max": "T", "min": "T"}},
     ),
+    # classmethods of inferno.stats (listed callee-first); `cls` is dropped, `Class.method` is emitted as class_method.
+    # Not translated: validate (constraint objects), sample / sample_mv (random number generators).
+    "Distributions": (
+        "inferno/stats/distributions.py",
+        ["Poisson.logpmf", "Poisson.pmf", "Poisson.cdf", "Poisson.logcdf", "Poisson.mean", "Poisson.variance",
+         "Normal.params_mv", "Normal.pdf", "Normal.logpdf", "Normal.cdf", "Normal.logcdf", "Normal.mean",
+         "Normal.variance",
+         "LogNormal.params_mv", "LogNormal.logpdf", "LogNormal.pdf", "LogNormal.cdf", "LogNormal.logcdf",
+         "LogNormal.mean", "LogNormal.variance"],
+        {},
+    ),
 }
+
+# Mathematical constants and special functions that `Num` does not provide become leading PARAMETERS of the generated
+# function (and of every generated function that calls it): theorems instantiate them with the real constant / state
+# the special function's defining facts as hypotheses; the float instance passes binary64 implementations.
+# There is ONE constant parameter, tau (= 2 pi): math.pi is emitted as tau / 2, so that exchanging the two constants in
+# the source changes the generated term (two interchangeable parameters of the same type would not).  The proof files
+# assert the NAMES of the special-function parameters (`Arguments f N erf ... : assert`), so exchanging e.g. erf and
+# lgamma in the source stops them compiling.
+EXTRA_ORDER = ["tau", "erf", "lgamma", "gammaincc"]
+EXTRA_TYPE = {"tau": "T N", "erf": "T N -> T N", "lgamma": "T N -> T N",
+              "gammaincc": "T N -> T N -> T N"}
+EXTRA_CONST = {"math.tau": "tau", "math.pi": "tau"}
+EXTRA_FUN = {"torch.special.erf": ("erf", 1), "torch.erf": ("erf", 1),
+             "torch.lgamma": ("lgamma", 1), "torch.special.gammaln": ("lgamma", 1),
+             "torch.special.gammaincc": ("gammaincc", 2)}
+# identity per element: conversion of python numbers / tensors to tensors
+COERCIONS = ("_astensorsfloat", "astensors")
 
 COQ_TYPE = {
     "T": "T N", "Z": "Z", "B": "bool",
@@ -136,12 +164,21 @@ def ann_type(node: ast.AST | None, has_none_default: bool) -> str:
 
 
 class Fn:
-    def __init__(self, node: ast.FunctionDef, overrides: dict[str, str]):
+    def __init__(self, node: ast.FunctionDef, overrides: dict[str, str], cls: str | None = None):
         self.node = node
         self.name = node.name
+        self.cls = cls
+        self.coqname = cname(node.name) if cls is None else cname(f"{cls.lower()}_{node.name}")
+        self.extras: list[str] = []
         a = node.args
         if a.vararg is not None or a.posonlyargs:
             raise TranslationError(f"{node.name}: *args / positional-only not supported")
+        if cls is not None:
+            decs = [ast.unparse(d) for d in node.decorator_list]
+            if decs != ["classmethod"] or not a.args or a.args[0].arg != "cls":
+                raise TranslationError(f"{cls}.{node.name}: expected a @classmethod taking cls")
+            a = ast.arguments(posonlyargs=[], args=a.args[1:], vararg=None, kwonlyargs=a.kwonlyargs,
+                              kw_defaults=a.kw_defaults, kwarg=a.kwarg, defaults=a.defaults)
         self.pos: list[str] = [x.arg for x in a.args]
         self.kwonly: list[str] = [x.arg for x in a.kwonlyargs]
         self.types: dict[str, str] = {}
@@ -173,6 +210,14 @@ class Fn:
 class Translator:
     def __init__(self, fns: dict[str, Fn]):
         self.fns = fns  # all known functions in this module (for sibling calls)
+        self.extras: set[str] = set()   # constants / special functions used by the function being translated
+        self.cls: str | None = None     # class of the classmethod being translated (resolves `cls.f(...)`)
+
+    def extra(self, nm: str, env) -> str:
+        if nm in env:
+            raise TranslationError(f"parameter or local named {nm} clashes with the constant/special-function parameter")
+        self.extras.add(nm)
+        return nm
 
     # --------------------------------------------------------------- coercions
     def toT(self, e):
@@ -248,6 +293,11 @@ class Translator:
             if n.id not in env:
                 raise TranslationError(f"unknown name {n.id}")
             return (cname(n.id), env[n.id])
+        if isinstance(n, ast.Attribute) and ast.unparse(n) in EXTRA_CONST:
+            c = self.extra(EXTRA_CONST[ast.unparse(n)], env)
+            return (c if ast.unparse(n) == "math.tau" else f"(div N {c} (ofZ N (2)%Z))", "T")
+        if isinstance(n, ast.Attribute) and ast.unparse(n) == "math.e":
+            return ("(exp N (one N))", "T")
         if isinstance(n, ast.Tuple):
             parts = [self.expr(x, env) for x in n.elts]
             tys = tuple(p[1] for p in parts)
@@ -272,6 +322,9 @@ class Translator:
                     return (f"(Z.modulo {self.toZ(a)} {self.toZ(b)})", "Z")
                 raise TranslationError("% on non-integers")
             if isinstance(n.op, ast.Pow):
+                if b[1] == "lit" and isinstance(b[0], int) and not isinstance(b[0], bool) and 0 <= b[0] <= 8:
+                    # x ** k with a literal natural k: repeated multiplication (any sign of the base)
+                    return (f"(pown N {self.toT(a)} {b[0]}%nat)", "T")
                 return (f"(pow N {self.toT(a)} {self.toT(b)})", "T")
             ops = {ast.Add: ("add", "Z.add"), ast.Sub: ("sub", "Z.sub"), ast.Mult: ("mul", "Z.mul"),
                    ast.Div: ("div", None)}
@@ -396,6 +449,26 @@ class Translator:
         E = lambda x: self.expr(x, env)
         if f == "torch.where" and len(args) == 3:
             return self.ifexp(args[0], lambda e: self.expr(args[1], e), lambda e: self.expr(args[2], e), env)
+        # special functions that Num does not provide: passed in as parameters
+        if f in EXTRA_FUN and len(args) == EXTRA_FUN[f][1] and not kws:
+            nm = self.extra(EXTRA_FUN[f][0], env)
+            return ("(" + nm + " " + " ".join(self.toT(E(a)) for a in args) + ")", "T")
+        if f == "torch.special.xlogy" and len(args) == 2 and not kws:
+            # xlogy(x, y) = 0 where x = 0, x * log y elsewhere
+            if "xlogy_x" in env:
+                raise TranslationError("name clash xlogy_x")
+            return (f"(let xlogy_x := {self.toT(E(args[0]))} in (if (eqb N xlogy_x (zero N)) then (zero N) "
+                    f"else (mul N xlogy_x (ln N {self.toT(E(args[1]))}))))", "T")
+        if f in ("torch.special.expm1", "torch.expm1") and len(args) == 1 and not kws:
+            return (f"(sub N (exp N {self.toT(E(args[0]))}) (one N))", "T")
+        # tensor conversion of one value: identity per element
+        if f in COERCIONS and len(args) == 1 and set(kws) <= {"conversion"}:
+            return E(args[0])
+        # classmethod of a translated class: cls.f(...) / Class.f(...)
+        if isinstance(n.func, ast.Attribute) and isinstance(n.func.value, ast.Name):
+            owner = self.cls if n.func.value.id == "cls" else n.func.value.id
+            if owner is not None and f"{owner}.{n.func.attr}" in self.fns:
+                return self.sibling(self.fns[f"{owner}.{n.func.attr}"], n, args, kws, E)
         if isinstance(n.func, ast.Attribute):
             meth, obj = n.func.attr, n.func.value
             objs = ast.unparse(obj)
@@ -422,6 +495,12 @@ class Translator:
             return (f"(exp N {self.toT(E(args[0]))})", "T")
         if f in ("torch.abs", "abs") and len(args) == 1:
             return (f"(abs N {self.toT(E(args[0]))})", "T")
+        if f in ("torch.log", "math.log") and len(args) == 1 and not kws:
+            return (f"(ln N {self.toT(E(args[0]))})", "T")
+        if f in ("torch.sqrt", "math.sqrt") and len(args) == 1 and not kws:
+            return (f"(sqrt N {self.toT(E(args[0]))})", "T")
+        if f == "torch.floor" and len(args) == 1 and not kws:
+            return (f"(ofZ N (floorZ N {self.toT(E(args[0]))}))", "T")
         if f == "torch.logical_and" and len(args) == 2:
             return (f"(andb {self.toB(E(args[0]))} {self.toB(E(args[1]))})", "B")
         if f == "torch.heaviside" and len(args) == 2:
@@ -437,6 +516,11 @@ class Translator:
             if a[1] == "Z" or b[1] == "Z":
                 return (f"(Z.max {self.toZ(a)} {self.toZ(b)})", "Z")
             return (f"(tmax N {self.toT(a)} {self.toT(b)})", "T")
+        if f == "min" and len(args) == 2 and not kws:
+            a, b = E(args[0]), E(args[1])
+            if a[1] == "Z" or b[1] == "Z":
+                return (f"(Z.min {self.toZ(a)} {self.toZ(b)})", "Z")
+            return (f"(tmin N {self.toT(a)} {self.toT(b)})", "T")
         if f == "int" and len(args) == 1:
             a = E(args[0])
             if a[1] in ("Z", "B") or (a[1] == "lit" and isinstance(a[0], int)):
@@ -450,33 +534,38 @@ class Translator:
             return (f"({cname(n.func.id)} {self.toT(E(args[0]))})", rt)
         # sibling kernel
         if isinstance(n.func, ast.Name) and n.func.id in self.fns:
-            g = self.fns[n.func.id]
-            if len(args) > len(g.pos):
-                raise TranslationError(
-                    f"call {ast.unparse(n)} passes {len(args)} positional arguments but {g.name} accepts "
-                    f"{len(g.pos)} (the rest are keyword-only): TypeError at run time")
-            bound = {}
-            for p, a in zip(g.pos, args):
-                bound[p] = a
-            for k, v in kws.items():
-                if k in bound:
-                    raise TranslationError(f"duplicate argument {k}")
-                if k in g.params:
-                    bound[k] = v
-                elif not g.has_kwargs:
-                    raise TranslationError(f"unexpected keyword {k} for {g.name}")
-            parts = []
-            for p in g.params:
-                if p in bound:
-                    parts.append(self.coerce(E(bound[p]), g.types[p]))
-                elif p in g.defaults:
-                    parts.append("None")
-                else:
-                    raise TranslationError(f"missing argument {p} in call {ast.unparse(n)}")
-            if g.ret is None:
-                raise TranslationError(f"{g.name} used before its definition")
-            return (f"({cname(g.name)} " + ("N " if g.uses_N else "") + " ".join(parts) + ")", g.ret)
+            return self.sibling(self.fns[n.func.id], n, args, kws, E)
         raise TranslationError(f"unsupported call {ast.unparse(n)}")
+
+    def sibling(self, g: Fn, n: ast.Call, args, kws, E):
+        if len(args) > len(g.pos):
+            raise TranslationError(
+                f"call {ast.unparse(n)} passes {len(args)} positional arguments but {g.name} accepts "
+                f"{len(g.pos)} (the rest are keyword-only): TypeError at run time")
+        bound = {}
+        for p, a in zip(g.pos, args):
+            bound[p] = a
+        for k, v in kws.items():
+            if k in bound:
+                raise TranslationError(f"duplicate argument {k}")
+            if k in g.params:
+                bound[k] = v
+            elif not g.has_kwargs:
+                raise TranslationError(f"unexpected keyword {k} for {g.name}")
+        parts = []
+        for p in g.params:
+            if p in bound:
+                parts.append(self.coerce(E(bound[p]), g.types[p]))
+            elif p in g.defaults:
+                parts.append("None")
+            else:
+                raise TranslationError(f"missing argument {p} in call {ast.unparse(n)}")
+        if g.ret is None:
+            raise TranslationError(f"{g.name} used before its definition")
+        for x in g.extras:
+            self.extras.add(x)
+        return (f"({g.coqname} " + ("N " if g.uses_N else "") + "".join(x + " " for x in g.extras)
+                + " ".join(parts) + ")", g.ret)
 
     # --------------------------------------------------------------- statements
     def block(self, stmts: list[ast.stmt], env: dict[str, str]):
@@ -490,6 +579,28 @@ class Translator:
             if s.value is None:
                 raise TranslationError("bare return")
             return self.expr(s.value, env)
+        if isinstance(s, ast.Assign) and len(s.targets) == 1 and isinstance(s.targets[0], ast.Tuple) \
+                and isinstance(s.value, ast.Call) and ast.unparse(s.value.func) in COERCIONS:
+            # `a, b = _astensorsfloat(a, b)`: conversion to tensors, identity per element
+            tg, call = s.targets[0].elts, s.value
+            if {k.arg for k in call.keywords} - {"conversion"} or len(tg) != len(call.args) \
+                    or not all(isinstance(t, ast.Name) for t in tg) or not all(isinstance(a, ast.Name) for a in call.args):
+                raise TranslationError(f"unsupported tensor conversion {ast.unparse(s)}")
+            srcs = [a.id for a in call.args]
+            env2, lets = dict(env), []
+            for t, a in zip(tg, srcs):
+                if a not in env:
+                    raise TranslationError(f"unknown name {a}")
+                if t.id != a:
+                    if t.id in srcs:
+                        raise TranslationError(f"permuting tensor conversion {ast.unparse(s)}")
+                    lets.append((t.id, a))
+                env2[t.id] = env[a]
+            body = self.block(rest, env2)
+            txt = body[0]
+            for t, a in reversed(lets):
+                txt = f"(let {cname(t)} := {cname(a)} in\n  {txt})"
+            return (txt, body[1])
         if isinstance(s, ast.Assign):
             if len(s.targets) != 1 or not isinstance(s.targets[0], ast.Name):
                 raise TranslationError("assignment target")
@@ -567,6 +678,11 @@ def translate_module(modname: str, repo: str = REPO):
     src = open(os.path.join(repo, path)).read()
     tree = ast.parse(src)
     found = {n.name: n for n in tree.body if isinstance(n, ast.FunctionDef)}
+    for c in tree.body:
+        if isinstance(c, ast.ClassDef):
+            for n in c.body:
+                if isinstance(n, ast.FunctionDef):
+                    found[f"{c.name}.{n.name}"] = n
     fns: dict[str, Fn] = {}
     out = [f"(* GENERATED by tools/translate.py from {path} -- do not edit *)",
            "From Coq Require Import ZArith Bool.",
@@ -576,19 +692,28 @@ def translate_module(modname: str, repo: str = REPO):
     for nm in names:
         if nm not in found:
             raise TranslationError(f"{path}: function {nm} not found")
-        fn = Fn(found[nm], overrides.get(nm, {}))
+        cls = nm.split(".")[0] if "." in nm else None
+        fn = Fn(found[nm], overrides.get(nm, {}), cls)
         fns[nm] = fn
         env = dict(fn.types)
+        tr.extras, tr.cls = set(), cls
         body = tr.block(fn.node.body, env)
         fn.ret = body[1] if body[1] != "lit" else "T"
         btxt = body[0] if body[1] != "lit" else tr.toT(body)
         if fn.ret == "Z" and body[1] == "Z":
             pass
-        params = " ".join(f"({cname(p)} : {COQ_TYPE[fn.types[p]]})" for p in fn.params)
+        fn.extras = [x for x in EXTRA_ORDER if x in tr.extras]
+        local = {t.id for st in ast.walk(fn.node) if isinstance(st, ast.Assign) for tg in st.targets
+                 for t in ast.walk(tg) if isinstance(t, ast.Name)}
+        for x in fn.extras:
+            if x in fn.params or x in local:
+                raise TranslationError(f"{nm}: name {x} clashes with the constant/special-function parameter")
+        params = " ".join([f"({x} : {EXTRA_TYPE[x]})" for x in fn.extras]
+                          + [f"({cname(p)} : {COQ_TYPE[fn.types[p]]})" for p in fn.params])
         sig = params + " : " + coq_ret_type(fn.ret)
         fn.uses_N = " N" in sig or " N" in btxt
         nparam = "(N : Num) " if fn.uses_N else ""
-        out.append(f"Definition {cname(nm)} {nparam}{sig} :=\n  {btxt}.\n")
+        out.append(f"Definition {fn.coqname} {nparam}{sig} :=\n  {btxt}.\n")
         node = found[nm]
         manifest.append({
             "module": modname, "source": path, "function": nm,
@@ -688,7 +813,96 @@ def translate_conv_outsize(repo: str = REPO):
     return txt, man
 
 
-SPECIAL = {"Conv": translate_conv_outsize}
+def translate_spikemath(repo: str = REPO):
+    """inferno/core/math.py: the element-wise expressions inside the sequence code of `isi` and of the
+    Victor-Purpura dynamic programme (the loops / splits themselves are outside the subset and stay hand-modelled):
+      isi:   the spike-time expression `(nz - 1) * step_time` passed to tensor_split;
+      victor_purpura_pair_dist: the body of the two nested loops - the three candidate costs and their minimum."""
+    path = "inferno/core/math.py"
+    tree = ast.parse(open(os.path.join(repo, path)).read())
+    fdefs = {n.name: n for n in tree.body if isinstance(n, ast.FunctionDef)}
+    for nm in ("isi", "victor_purpura_pair_dist"):
+        if nm not in fdefs:
+            raise TranslationError(f"{path}: function {nm} not found")
+    # ---- isi
+    occ = [st for st in ast.walk(fdefs["isi"]) if isinstance(st, ast.Assign) and isinstance(st.value, ast.Call)
+           and ast.unparse(st.value.func) == "torch.tensor_split"]
+    if len(occ) != 1 or len(occ[0].value.args) != 2 or ast.unparse(occ[0].value.args[1]) != "splits":
+        raise TranslationError("isi: expected exactly one torch.tensor_split(<times>, splits, ...)")
+    tr = Translator({})
+    v = tr.expr(occ[0].value.args[0], {"nz": "Z", "step_time": "T"})
+    if v[1] != "T" or tr.extras:
+        raise TranslationError("isi: spike-time expression is not a number")
+    txt = ("(* isi: the value handed to tensor_split, per nonzero index nz of the left-padded raster *)\n"
+           "Definition isi_spike_time (N : Num) (nz : Z) (step_time : T N) : T N :=\n"
+           f"  {v[0]}.\n\n")
+    man = [{"module": "SpikeMath", "source": path, "function": "isi.<spike time expression>",
+            "lines": [occ[0].lineno, occ[0].end_lineno],
+            "sha256": hashlib.sha256(ast.dump(occ[0].value.args[0]).encode()).hexdigest()}]
+    # ---- Victor-Purpura: for r in range(1, t0.numel() + 1): for c in range(1, t1.numel() + 1): <4 statements>
+    vp = fdefs["victor_purpura_pair_dist"]
+    outer = [st for st in vp.body if isinstance(st, ast.For)]
+    if len(outer) != 1 or ast.unparse(outer[0].target) != "r" \
+            or ast.unparse(outer[0].iter) != "range(1, t0.numel() + 1)" or len(outer[0].body) != 1 \
+            or not isinstance(outer[0].body[0], ast.For) or outer[0].orelse:
+        raise TranslationError("victor_purpura_pair_dist: outer loop has an unexpected shape")
+    inner = outer[0].body[0]
+    if ast.unparse(inner.target) != "c" or ast.unparse(inner.iter) != "range(1, t1.numel() + 1)" or inner.orelse:
+        raise TranslationError("victor_purpura_pair_dist: inner loop has an unexpected shape")
+    body = inner.body
+    if len(body) < 2 or not all(isinstance(st, ast.Assign) and len(st.targets) == 1 for st in body) \
+            or not all(isinstance(st.targets[0], ast.Name) for st in body[:-1]) \
+            or ast.unparse(body[-1].targets[0]) != "grid[:, r, c]":
+        raise TranslationError("victor_purpura_pair_dist: loop body has an unexpected shape")
+    ren = {"grid[:, r - 1, c]": "up", "grid[:, r, c - 1]": "lft", "grid[:, r - 1, c - 1]": "diag",
+           "t0[r - 1]": "x", "t1[c - 1]": "y"}
+
+    class R(ast.NodeTransformer):
+        def visit_Subscript(self, n):
+            s_ = ast.unparse(n)
+            if s_ in ren:
+                return ast.Name(id=ren[s_], ctx=ast.Load())
+            return self.generic_visit(n)
+
+    def red(e):
+        return R().visit(ast.parse(ast.unparse(e)).body[0].value)
+    # the stored value: torch.stack((a, b, ...), 0).nan_to_num(nan=float('inf')).amin(0)  ->  min(min(a, b), ...)
+    # (nan arises only as inf * 0 when cost = inf; for a finite cost nan_to_num is the identity)
+    fin = body[-1].value
+    ok = (isinstance(fin, ast.Call) and ast.unparse(fin.func).endswith(".amin") and ast.unparse(fin.args[0]) == "0"
+          and len(fin.args) == 1 and not fin.keywords)
+    n2 = fin.func.value if ok else None
+    ok = ok and isinstance(n2, ast.Call) and isinstance(n2.func, ast.Attribute) and n2.func.attr == "nan_to_num" \
+        and not n2.args and [(k.arg, ast.unparse(k.value)) for k in n2.keywords] == [("nan", "float('inf')")]
+    n3 = n2.func.value if ok else None
+    ok = ok and isinstance(n3, ast.Call) and ast.unparse(n3.func) == "torch.stack" and len(n3.args) == 2 \
+        and ast.unparse(n3.args[1]) == "0" and isinstance(n3.args[0], ast.Tuple) and len(n3.args[0].elts) >= 2 \
+        and not n3.keywords
+    if not ok:
+        raise TranslationError("victor_purpura_pair_dist: the stored cell is not stack(...).nan_to_num(nan=inf).amin(0)")
+    cands = [ast.unparse(e) for e in n3.args[0].elts]
+    mn = cands[0]
+    for c_ in cands[1:]:
+        mn = f"min({mn}, {c_})"
+    stmts = [ast.Assign(targets=[st.targets[0]], value=red(st.value), lineno=0) for st in body[:-1]]
+    stmts.append(ast.Return(value=ast.parse(mn).body[0].value))
+    tr = Translator({})
+    env = {"up": "T", "lft": "T", "diag": "T", "cost": "T", "x": "T", "y": "T"}
+    v = tr.block(stmts, env)
+    if v[1] != "T" or tr.extras:
+        raise TranslationError("victor_purpura_pair_dist: cell expression is not a number")
+    txt += ("(* victor_purpura_pair_dist: one cell of the dynamic programme for a FINITE cost; up = grid[r-1, c],\n"
+            "   lft = grid[r, c-1], diag = grid[r-1, c-1], x = t0[r-1], y = t1[c-1] *)\n"
+            "Definition vp_cell_finite (N : Num) (up : T N) (lft : T N) (diag : T N) (cost : T N) (x : T N) (y : T N)"
+            " : T N :=\n"
+            f"  {v[0]}.\n")
+    man.append({"module": "SpikeMath", "source": path, "function": "victor_purpura_pair_dist.<loop body>",
+                "lines": [inner.lineno, inner.end_lineno],
+                "sha256": hashlib.sha256("\n".join(ast.dump(st) for st in body).encode()).hexdigest()})
+    return txt, man
+
+
+SPECIAL = {"Conv": translate_conv_outsize, "SpikeMath": translate_spikemath}
 
 
 def generate(outdir: str, modules: list[str] | None = None, repo: str = REPO):
@@ -701,7 +915,7 @@ def generate(outdir: str, modules: list[str] | None = None, repo: str = REPO):
                 t2, m2 = SPECIAL[m](repo)
                 txt = ("(* GENERATED by tools/translate.py -- do not edit *)\nFrom Coq Require Import ZArith Bool.\n"
                        "From Inferno Require Import Base.Num.\n\n" + t2)
-                man = [m2]
+                man = m2 if isinstance(m2, list) else [m2]
             else:
                 txt, man = translate_module(m, repo)
             if m == "Infra":
